@@ -11,7 +11,7 @@ LEVEL = "translation_validation"
 ITEM_CAP = {"quick": 60, "thorough": 120}
 FUNCS = ["qlasskit.qlassfun.qlassf -> UnboundQlassf", "qlasskit.qlassfun.UnboundQlassf.bind", "qlasskit.qlassfun.is_parameter_annotation",
          "qlasskit.ast2ast.astrewriter.ASTRewriter.visit_Assign / constantfolder.ConstantFolder (propagation of the injected assignments)"]
-BOUNDS = "16 parameterised programs (bool, Qint[2..4], Qlist, Tuple parameters; 1-3 parameters; first/last/interleaved) x ALL parameter values of the declared types x keyword orders x bind histories {v; v,v',v} on one unbound object; remaining arguments symbolic; both optimizer profiles"
+BOUNDS = "26 parameterised programs (bool, Qint[2..4], Qlist, Tuple parameters; 1-3 parameters; first/last/interleaved) x ALL parameter values of the declared types x keyword orders x bind histories {v; v,v',v} on one unbound object; remaining arguments symbolic; both optimizer profiles"
 OUTSIDE = "program texts enumerated; parameter values enumerated exhaustively (they are compile-time python values, not solver variables)"
 ASSUMPTIONS = ["reference meaning of a bound function = RefSem of the unbound source with the parameters replaced by constant assignments",
                "'unbound object unchanged' is a frame condition: ast.dump(fun_ast), parameters dict compared before/after each bind"]
@@ -35,6 +35,15 @@ PROGS = [
     ("def prog(a: Qint[3], s: Parameter[Qint[2]]) -> Qint[3]:\n    return a << s\n", {"s": "i2"}),
     ("def prog(a: Qint[2], c: Parameter[Qint[2]], k: Parameter[bool]) -> Qint[2]:\n    b = a\n    if k:\n        b = a + c\n    return b\n", {"c": "i2", "k": "b"}),
     ("def prog(k: Parameter[bool]) -> bool:\n    return not k\n", {"k": "b"}),
+    ("def prog(m: Parameter[Qlist[bool, 3]], a: bool, b: bool) -> bool:\n    return (any(m) and a) or (all(m) and b)\n", {"m": "lb3"}),
+    ("def prog(m: Parameter[Qlist[Qint[2], 2]], a: Qint[2]) -> Qint[4]:\n    return sum(m) + a\n", {"m": "li2"}),
+    ("def prog(m: Parameter[Qlist[Qint[2], 2]], a: Qint[2]) -> Qint[2]:\n    return max(m) if a > min(m) else a\n", {"m": "li2"}),
+    ("def prog(m: Parameter[Qlist[bool, 3]], a: Qint[2]) -> Qint[2]:\n    c = a\n    for x in m:\n        c = c + 1 if x else c\n    return c\n", {"m": "lb3"}),
+    ("def prog(t: Parameter[Qmatrix[Qint[2], 2, 3]], r: Qint[2], c: Qint[2]) -> Qint[2]:\n    return t[r][c]\n", {"t": "tab23"}),
+    ("def prog(t: Parameter[Qmatrix[Qint[2], 3, 2]], r: Qint[2], c: Qint[2]) -> Qint[2]:\n    return t[r][c]\n", {"t": "tab32"}),
+    ("def prog(t: Parameter[Qmatrix[Qint[2], 2, 2]], r: Qint[2], c: Qint[2]) -> Qint[2]:\n    return t[r][c]\n", {"t": "tab22"}),
+    ("def prog(t: Parameter[Qmatrix[bool, 1, 4]], c: Qint[2]) -> bool:\n    return t[0][c]\n", {"t": "tab14"}),
+    ("def prog(lo: Parameter[Qint[2]], hi: Parameter[Qint[2]], a: Qint[2]) -> bool:\n    return a >= lo and a < hi\n", {"lo": "i2", "hi": "i2"}),
 ]
 DOM = {
     "b": [False, True],
@@ -43,6 +52,11 @@ DOM = {
     "lb2": [[x, y] for x in (False, True) for y in (False, True)],
     "tbi": [[x, y] for x in (False, True) for y in range(4)],
     "li2": [[x, y] for x in range(4) for y in range(4)],
+    "lb3": [[bool(i & 1), bool(i & 2), bool(i & 4)] for i in range(8)],
+    "tab23": [[[0, 1, 2], [3, 2, 1]], [[1, 1, 0], [0, 3, 3]], [[3, 0, 1], [2, 2, 0]]],
+    "tab32": [[[0, 1], [2, 3], [1, 0]], [[3, 3], [0, 1], [2, 0]]],
+    "tab22": [[[0, 1], [2, 3]], [[3, 1], [1, 0]]],
+    "tab14": [[[True, False, False, True]], [[False, True, True, False]], [[True, True, False, False]]],
 }
 
 
@@ -113,7 +127,19 @@ def check_item(spec):
         except refsem.Undef:
             res.update(cls="ref-undef")
             continue
-        findings, status, note, nontriv = frontend.decide(qf, ref, st, original_f=qf.original_f, validate=(step == 0))
+        arg_names = [n for n, _ in ref["args"]]
+
+        def unbound_python(*vals, _v=v, _names=arg_names):
+            kwargs = {k: pyval(x) for k, x in _v.items()}
+            kwargs.update(dict(zip(_names, vals)))
+            return u.original_f(**kwargs)
+
+        findings, status, note, nontriv = frontend.decide(qf, ref, st, original_f=unbound_python, validate=(step == 0))
+        # the bound object's own python function must agree with it as well
+        if not findings and status == "ok" and callable(getattr(qf, "original_f", None)):
+            bf = bound_python_agrees(qf, unbound_python, ref)
+            if bf:
+                findings.append(bf)
         for f in findings:
             f["kind"] = f["kind"] + "@bind%d" % step
             f["what"] = "bind(%s) [%d of %s]: %s" % (kw, step, spec["hist"], f["what"])
@@ -127,6 +153,47 @@ def check_item(spec):
     if judged:
         res["cls"] = "judged"
     return st.into(res)
+
+
+def bound_python_agrees(qf, unbound_python, ref):
+    """frame check (concrete): qf.original_f of the bound function equals the unbound python
+    function with the parameters set, on all inputs when there are <= 6 input bits"""
+    import itertools
+
+    from .. import frontend as fe
+
+    n = len(ref["argbits"])
+    if n > 6:
+        return None
+    for bits in itertools.product([False, True], repeat=n):
+        asg = dict(zip(ref["argbits"], bits))
+        m = _FakeModel(asg)
+        vals = fe.model_values(m, ref)
+        try:
+            a = unbound_python(*vals)
+        except Exception:
+            continue
+        try:
+            b = qf.original_f(*vals)
+        except Exception as e:
+            return {"kind": "bound-python-raises", "what": "bound original_f%s raises %s" % (tuple(vals), type(e).__name__), "cex": {"args": repr(vals)}, "replayed": True}
+        try:
+            same = refsem.python_value_bits(a, ref["ret_type"]) == refsem.python_value_bits(b, ref["ret_type"])
+        except Exception:
+            same = a == b
+        if not same:
+            return {"kind": "bound-python-differs", "what": "args %s: bound object's python function gives %r, unbound function with the parameters set gives %r" % (vals, b, a), "cex": {"args": repr(vals)}, "replayed": True}
+    return None
+
+
+class _FakeModel:
+    def __init__(self, asg):
+        self.asg = asg
+
+    def eval(self, t, model_completion=True):
+        import z3
+
+        return z3.BoolVal(self.asg[str(t)])
 
 
 def coverage(specs, results):
